@@ -40,7 +40,7 @@ MANIFEST = dict(
 
 IMPORTS = ['Coq.NArith.NArith', 'Coq.ZArith.ZArith', 'Coq.Lists.List', 'Coq.Strings.String', 'SV.KV.KvBase', 'SV.Fmt.VmfText',
            'SV.Fmt.VmfBlocks', 'SV.Gen.VmfTemplates_gen', 'SV.Gen.VmfKeys_gen', 'SV.Gen.VmfDispSizes_gen', 'SV.Gen.VmfOrder_gen',
-           'SV.Gen.VmfProg_gen', 'SV.Props.C06']
+           'SV.Gen.VmfProg_gen', 'SV.Fmt.VmfFields', 'SV.Gen.VmfFieldsCfg_gen', 'SV.Props.C06']
 PRE = '''Import ListNotations. Open Scope string_scope.
 Fixpoint nl_eqb (a b : list N) : bool := match a, b with [], [] => true | x :: a', y :: b' => N.eqb x y && nl_eqb a' b' | _, _ => false end.
 Fixpoint bad_idx {A} (f : A -> bool) (n : N) (l : list A) : list N := match l with [] => [] | x :: r => (if f x then [] else [n]) ++ bad_idx f (n + 1)%N r end.
@@ -148,6 +148,105 @@ def corr_rounding(ck: Ck) -> None:
     if bg:
         ck.tie_broken.append('correspondence g6')
         ck.extra['g6_disagreement'] = casesg[bg[0]]
+
+
+def corr_output_fixup(ck: Ck) -> None:
+    """out_parse of Fmt/VmfFields.v against Output.parse on generated values (both separators, missing and extra
+    separators, ESC inside comma forms), out_join against the value written by Output.as_keyvalue, and fix_init against
+    EntityFixup.__init__ on generated index lists (duplicates, zero and negative indexes, repeated variable names)."""
+    from srctools.keyvalues import Keyvalues
+    from srctools.vmf import Output, EntityFixup, FixupValue
+    n = ck.budget(300, 1500)
+    alpha = ['a', 'b', ',', ',', '\x1b', ';', ' ', '"', 'x']
+    delays = {'0': 0.0, '1.5': 1.5, '2': 2.0}
+    times = {'-1': -1, '1': 1, '5': 5}
+    p_cases, j_cases = [], []
+    for _ in range(n):
+        nf = ck.rng.choice([3, 4, 5, 5, 5, 5, 6, 7])
+        sep = ck.rng.choice([',', '\x1b'])
+        flds = [''.join(ck.rng.choice(alpha) for _ in range(ck.rng.choice([0, 1, 1, 2, 3]))) for _ in range(max(nf - 2, 0))]
+        flds += [ck.rng.choice(list(delays)), ck.rng.choice(list(times))]
+        v = sep.join(flds[:nf]) if nf >= 2 else sep.join(flds)
+        try:
+            o = Output.parse(Keyvalues('OnX', v))
+            exp = [o.target, o.input if o.inst_in is None else None, o.params, o.delay, o.times, o.comma_sep]
+        except ValueError as e:
+            if 'Bad output value' not in str(e):
+                ck.count('output_parse_cases_numeric_junk')
+                continue
+            exp = None
+        ck.hist('output_value_fields', f'{len(v.split(sep))}{"c" if sep == "," else "e"}')
+        if exp is not None and (exp[1] is None or exp[3] not in delays.values() or exp[4] not in times.values()):
+            continue
+        p_cases.append((v, exp))
+        ck.count('output_parse_cases')
+        ck.seen(('outparse', v))
+        # writer side: a real Output, its line parsed back by the real Keyvalues parser gives the value text
+        comma = ck.rng.random() < 0.5
+        t, i, p = (''.join(ck.rng.choice(alpha) for _ in range(ck.rng.choice([0, 1, 2, 3]))) for _ in range(3))
+        d, tm = ck.rng.choice(list(delays)), ck.rng.choice(list(times))
+        ro = Output('OnX', t, i or 'i', p, delays[d], times=times[tm], comma_sep=comma)
+        val = next(iter(Keyvalues.parse(ro.as_keyvalue()))).value
+        j_cases.append(((t, i or 'i', p, d, tm, comma), val))
+        ck.count('output_join_cases')
+    inv_d = {v: k for k, v in delays.items()}
+    inv_t = {v: k for k, v in times.items()}
+
+    def b(x: bool) -> str:
+        return 'true' if x else 'false'
+    lit_p = coq_list(f'({coq_str(v)}, ' + ('None' if e is None else
+                     f'Some (mk_outv {coq_str(e[0])} {coq_str(e[1])} {coq_str(e[2])} {coq_str(inv_d[e[3]])} {coq_str(inv_t[e[4]])} {b(e[5])})') + ')'
+                     for v, e in p_cases[:500])
+    lit_j = coq_list(f'(mk_outv {coq_str(t)} {coq_str(i)} {coq_str(p)} {coq_str(d)} {coq_str(tm)} {b(c)}, {coq_str(val)})'
+                     for (t, i, p, d, tm, c), val in j_cases[:500])
+    # fixups
+    f_cases = []
+    names = ['a', 'B', 'b', 'A', 'cc', '$a', 'd']
+    for _ in range(n):
+        fl = [(ck.rng.choice(names), ck.rng.choice(['v', 'w', '']), ck.rng.choice([0, -1, 1, 1, 2, 3, 3, 5, 7])) for _ in range(ck.rng.randint(0, 6))]
+        try:
+            ef = EntityFixup([FixupValue(v, x, i) for v, x, i in fl])
+        except Exception as e:        # noqa: BLE001 - the API may refuse (empty names): not a case
+            ck.count('fixup_cases_refused')
+            continue
+        got = [(f.var, f.value, f.id) for f in ef._fixup.values()]
+        if any(i < 0 for _, _, i in fl):
+            fl = [(v, x, max(i, 0)) for v, x, i in fl]     # the model's indexes are naturals; negative == 0 == "not positive"
+        f_cases.append((fl, got))
+        ck.count('fixup_init_cases')
+        if len({i for _, _, i in fl}) < len(fl):
+            ck.seen(('fixinit', tuple(fl)))
+        ck.hist('fixup_list_len', len(fl))
+
+    def fx(l: list) -> str:
+        return coq_list(f'(({coq_str(v)}, {coq_str(x)}), {i}%N)' for v, x, i in l)
+    lit_f = coq_list(f'({fx(a)}, {fx(g)})' for a, g in f_cases[:500])
+    pre = PRE + '''Open Scope N_scope.
+Definition lower (c : N) : N := if ((65 <=? c) && (c <=? 90))%bool then c + 32 else c.
+Definition same_ci (a b : list N) : bool := nl_eqb (map lower a) (map lower b).
+Definition outv_eqb (a b : outv) : bool := (nl_eqb (ov_target a) (ov_target b) && nl_eqb (ov_input a) (ov_input b) && nl_eqb (ov_params a) (ov_params b)
+  && nl_eqb (ov_delay a) (ov_delay b) && nl_eqb (ov_times a) (ov_times b) && Bool.eqb (ov_comma a) (ov_comma b))%bool.
+Fixpoint fxl_eqb (a b : list fixup) : bool := match a, b with [], [] => true
+  | x :: a', y :: b' => (nl_eqb (fx_var x) (fx_var y) && nl_eqb (fx_val x) (fx_val y) && (fx_id x =? fx_id y) && fxl_eqb a' b')%bool | _, _ => false end.
+'''
+    vals = ck.coq_eval(IMPORTS, [
+        f'bad_idx (fun c : list N * option outv => match out_parse (fst c), snd c with Some a, Some e => outv_eqb a e | None, None => true '
+        f'| _, _ => false end) 0%N {lit_p}',
+        f'bad_idx (fun c : outv * list N => nl_eqb (out_join (fst c)) (snd c)) 0%N {lit_j}',
+        f'bad_idx (fun c : list fixup * list fixup => fxl_eqb (fix_init same_ci (fst c)) (snd c)) 0%N {lit_f}'], name='outfix', preamble=pre)
+    if vals is None:
+        ck.obligation('correspondence:output_fixup', False, 'model could not be evaluated')
+        ck.tie_broken.append('correspondence output/fixup: model evaluation failed')
+        return
+    bp, bj, bf = (parse_coq_N_list(v) for v in vals)
+    ck.obligation('correspondence:output_parse', not bp, f'{min(len(p_cases), 500)} output values, Fmt/VmfFields.out_parse vs Output.parse: {len(bp)} disagreements')
+    ck.obligation('correspondence:output_join', not bj, f'{min(len(j_cases), 500)} outputs, Fmt/VmfFields.out_join vs the value written by Output.as_keyvalue: {len(bj)} disagreements')
+    ck.obligation('correspondence:fixup_init', not bf, f'{min(len(f_cases), 500)} fixup lists, Fmt/VmfFields.fix_init vs EntityFixup.__init__: {len(bf)} disagreements')
+    for name, bad, cases in (('output_parse', bp, p_cases), ('output_join', bj, j_cases), ('fixup_init', bf, f_cases)):
+        if bad:
+            ck.tie_broken.append(f'correspondence {name} (Fmt/VmfFields.v vs vmf.py)')
+            ck.extra[f'{name}_disagreement'] = repr(cases[bad[0]])
+    ck.sample({'output_parse_case(value, Output.parse)': repr(p_cases[3]), 'fixup_init_case(input, EntityFixup order)': repr(f_cases[3])})
 
 
 def rich_spec(seed: int = 7) -> dict:
@@ -485,11 +584,18 @@ def run(ck: Ck) -> None:
         obs['programs_all_ok'] = 'table_ok vmf_nums vmf_progs'
         obs['program_calls_defined'] = 'calls_defined vmf_progs'
         obs['program_methods_complete'] = f'({len(T.EXPORT_FUNCS) - 1} <=? List.length vmf_progs)%nat'
+        # field-level glue (round 2)
+        for pw in (1, 2, 3, 4):
+            obs[f'disp_row_keys_read:power{pw}'] = (f'(forallb (fun p => rows_recognised gen_rowreader p (Z.to_nat (gen_disp_size {pw}))) '
+                                                    f'gen_row_prefixes && negb (Nat.eqb (List.length gen_row_prefixes) 0))%bool')
+        obs['output_separators_agree'] = '((gen_out_esc =? ESC) && (gen_out_write_comma =? COMMA) && (gen_out_read_comma =? COMMA))%N%bool'
+        obs['output_field_order_agrees'] = ('(nlist_eqb gen_out_write_order (0 :: 1 :: 2 :: 3 :: 4 :: nil)%N && nlist_eqb gen_out_read_order (0 :: 1 :: 2 :: 3 :: 4 :: nil)%N)%bool')
         res = ck.instance_obligations(IMPORTS, obs, name='c06')
         if not all(res.values()):
             ck.tie_broken.append('instance obligations failed: ' + ', '.join(k for k, v in res.items() if not v))
         corr_escape(ck)
         corr_rounding(ck)
+        corr_output_fixup(ck)
         try:
             validate_tables(ck, tr.get('VmfTemplates_gen', {}), tr.get('VmfKeys_gen', {}))
         except Exception as e:     # the rich map itself may fail to export when the source is broken: the search reports that
